@@ -1682,6 +1682,12 @@ int vnaproperty_vset(vnaproperty_t **rootptr, const char *format, va_list ap)
 		check.prs_scn.scn_token != T_HASH) {
 	    valid = false;
 	}
+	if (check.prs_scn.scn_token == T_HASH) {	/* nothing follows # */
+	    scan(&check.prs_scn);
+	    if (check.prs_scn.scn_token != T_EOF) {
+		valid = false;
+	    }
+	}
 	parser_free(&check);
 	if (!valid) {
 	    errno = EINVAL;
